@@ -23,6 +23,8 @@ use std::sync::Mutex;
 struct CachedInfoset {
     reg: RegretInfoset,
     cached: usize,
+    #[cfg(cfr_verif)]
+    vid: usize,
 }
 
 impl CachedInfoset {
@@ -31,13 +33,24 @@ impl CachedInfoset {
         CachedInfoset {
             reg: RegretInfoset::new(num_actions),
             cached: 0,
+            #[cfg(cfr_verif)]
+            vid: cfr_verif_seam::register_player(num_actions),
         }
     }
 
     /// Sample an action from the current strategy, caches between resets
     fn sample(&mut self) -> usize {
+        #[cfg(cfr_verif)]
+        cfr_verif_seam::player_enter(self.vid, self.cached);
         if self.cached == 0 {
             let res = Multinomial::new(&self.reg.strat).sample(&mut thread_rng());
+            #[cfg(cfr_verif)]
+            let res = match cfr_verif_seam::player_rng(self.vid) {
+                Some(mut rng) => Multinomial::new(&self.reg.strat).sample(&mut rng),
+                None => res,
+            };
+            #[cfg(cfr_verif)]
+            let res = cfr_verif_seam::player_drawn(self.vid, &self.reg.strat, res);
             self.cached = res + 1;
             res
         } else {
@@ -159,6 +172,8 @@ impl ActiveInfo for CachedInfoset {
 
     fn advance<const FIRST: bool>(&mut self, it: u64, params: &RegretParams) -> f64 {
         self.cached = 0;
+        #[cfg(cfr_verif)]
+        cfr_verif_seam::player_reset(self.vid);
         params.regret_match(&mut *self.reg.cum_regret, &mut self.reg.strat);
         params.discount_cum_regret(it, &mut *self.reg.cum_regret);
         // NOTE since we alternate updates, when do the first discounting of player one's average
